@@ -184,9 +184,9 @@ theorem shareOf_eq (S : Schema) (D : Data) (sub : List FieldSpec) (e : Entity) (
     shareOf S D sub e.id = r := by
   simp [shareOf, hent, hr]
 
-/-- **C01 on the flat one-hop family with a LIST-valued root field.** See `Props/C01FlatList.lean`
-    (`C01_flat_list_one_hop`) for the statement in words. -/
-theorem flat_list_one_hop (h : Fam c A B T q fs)
+/-- `flat_list_one_hop` with the calls made explicit (`callsOf`): one call to `A`, and ONE batch to
+    `B` — a lookup per distinct id — iff `B` owns a selected field and the list is not empty -/
+theorem flat_list_one_hop_calls (h : Fam c A B T q fs)
     (svcs : List Svc) (SA SB : Schema) (D : Data) (es : List Entity) (rs : List (List (String × J)))
     (hq1 : '#' ∉ q.toList) (hq2 : ':' ∉ q.toList) (hqne : q ≠ "")
     (hi : ∀ e ∈ es, '#' ∉ e.id.toList ∧ e.id ≠ "")
@@ -196,9 +196,9 @@ theorem flat_list_one_hop (h : Fam c A B T q fs)
     (hroot : dlookup q (D.root "Query") = some (.list (es.map (fun e => DVal.ref e.id))))
     (hent : ∀ e ∈ es, D.entity? e.id = some e ∧ e.type = T)
     (href : Spec.eval c.schema D ⟨.query, "", [], [QL T q fs]⟩ [] = some (.obj [(q, .arr (rs.map J.obj))])) :
-    ∃ (ds : List (List (String × J))) (calls : List Call),
+    ∃ (ds : List (List (String × J))),
       gateway c {} ⟨.query, "", [], [QL T q fs]⟩ none (specDownstream svcs D)
-        = .ok ⟨some [(q, .arr (ds.map J.obj))], [], calls⟩
+        = .ok ⟨some [(q, .arr (ds.map J.obj))], [], callsOf c A B T q fs (es.map (fun e => e.id))⟩
       ∧ ds.length = es.length ∧ rs.length = es.length
       ∧ ∀ (j : Nat) (d r : List (String × J)), ds[j]? = some d → rs[j]? = some r → d.Perm r := by
   have hent1 : ∀ e ∈ es, D.entity? e.id = some e := fun e he => (hent e he).1
@@ -279,9 +279,9 @@ theorem flat_list_one_hop (h : Fam c A B T q fs)
     intro i hi'
     obtain ⟨e, he, rfl⟩ := hmemids i hi'
     exact (hper e he).2.2.2.2
-  obtain ⟨calls, hg⟩ := stage_gateway h (specDownstream svcs D) ids aOf bOf hq1 hq2 hids hA hB hb0 hd
-  refine ⟨ids.map (fun i => aOf i ++ bOf i), calls, ?_, by simp [ids], by simp [hrs], ?_⟩
-  · rw [hg]; simp [List.map_map, Function.comp]
+  have hg := stage_gateway h (specDownstream svcs D) ids aOf bOf hq1 hq2 hids hA hB hb0 hd
+  refine ⟨ids.map (fun i => aOf i ++ bOf i), ?_, by simp [ids], by simp [hrs], ?_⟩
+  · rw [hg]; simp only [List.map_map, ids]; rfl
   · intro j d r hdj hrj
     rw [hrs] at hrj
     simp only [ids, List.map_map, List.getElem?_map, Option.map_eq_some_iff, Function.comp] at hdj hrj
@@ -291,5 +291,54 @@ theorem flat_list_one_hop (h : Fam c A B T q fs)
     injection hej' with hee
     subst hee
     exact (hper e (List.mem_of_getElem? hej)).1
+
+/-- **C01 on the flat one-hop family with a LIST-valued root field.** See `Props/C01FlatList.lean`
+    (`C01_flat_list_one_hop`) for the statement in words. -/
+theorem flat_list_one_hop (h : Fam c A B T q fs)
+    (svcs : List Svc) (SA SB : Schema) (D : Data) (es : List Entity) (rs : List (List (String × J)))
+    (hq1 : '#' ∉ q.toList) (hq2 : ':' ∉ q.toList) (hqne : q ≠ "")
+    (hi : ∀ e ∈ es, '#' ∉ e.id.toList ∧ e.id ≠ "")
+    (hnne : ∀ n ∈ namesOf fs, n ≠ "")
+    (hsA : svcs.find? (·.url == A) = some ⟨A, SA⟩) (hsB : svcs.find? (·.url == B) = some ⟨B, SB⟩)
+    (hSB : ∃ td, SB.type? T = some td ∧ td.kind = .object)
+    (hroot : dlookup q (D.root "Query") = some (.list (es.map (fun e => DVal.ref e.id))))
+    (hent : ∀ e ∈ es, D.entity? e.id = some e ∧ e.type = T)
+    (href : Spec.eval c.schema D ⟨.query, "", [], [QL T q fs]⟩ [] = some (.obj [(q, .arr (rs.map J.obj))])) :
+    ∃ (ds : List (List (String × J))) (calls : List Call),
+      gateway c {} ⟨.query, "", [], [QL T q fs]⟩ none (specDownstream svcs D)
+        = .ok ⟨some [(q, .arr (ds.map J.obj))], [], calls⟩
+      ∧ ds.length = es.length ∧ rs.length = es.length
+      ∧ ∀ (j : Nat) (d r : List (String × J)), ds[j]? = some d → rs[j]? = some r → d.Perm r := by
+  obtain ⟨ds, hg, h1, h2, h3⟩ := flat_list_one_hop_calls h svcs SA SB D es rs hq1 hq2 hqne hi hnne hsA hsB hSB hroot hent href
+  exact ⟨ds, _, hg, h1, h2, h3⟩
+
+/-- the batch sent to `B`, as variables: one `{id}` per DISTINCT id, in order of first occurrence -/
+theorem batchB_vars (c : PCtx) (B T q : String) (bs : List FieldSpec) (ids : List String) :
+    (batchB c B T q bs ids).map (·.vars) = (dedupIds ids).map (fun i => [("id", J.str i)]) := by
+  simp [batchB, rqB, rqOf, List.map_map, Function.comp]
+
+theorem callsOf_two (c : PCtx) (A B T q : String) (fs : List FieldSpec) (ids : List String)
+    (hB : fsB fs ≠ []) (hne : ids ≠ []) :
+    callsOf c A B T q fs ids = [⟨A, [rqOf c (rootStep A B T q fs) []]⟩, ⟨B, batchB c B T q (fsB fs) ids⟩] := by
+  unfold callsOf
+  cases hfb : fsB fs with
+  | nil => exact absurd hfb hB
+  | cons _ _ =>
+    cases ids with
+    | nil => exact absurd rfl hne
+    | cons _ _ => rfl
+
+theorem callsOf_one (c : PCtx) (A B T q : String) (fs : List FieldSpec) (ids : List String)
+    (h : fsB fs = [] ∨ ids = []) :
+    callsOf c A B T q fs ids = [⟨A, [rqOf c (rootStep A B T q fs) []]⟩] := by
+  unfold callsOf
+  rcases h with h | h
+  · rw [h]
+  · rw [h]; cases fsB fs <;> rfl
+
+theorem dedupIds_nodup (ids : List String) : (dedupIds ids).Nodup := dedupInto_nodup ids [] (by simp)
+
+theorem mem_dedupIds (ids : List String) (i : String) : i ∈ dedupIds ids ↔ i ∈ ids :=
+  ⟨mem_of_mem_dedupIds, mem_dedupInto ids [] i⟩
 
 end PebblesVerif.FlatList
